@@ -102,6 +102,21 @@ func (c *Concretiser) prepScript(q M) string {
 					}
 					cell["_val"] = val
 					cell["val"] = pgw.Dig([]byte(canon))
+				case "tonly":
+					// a value the handler supplies as its text rendering (a Go string) for an integer column:
+					// encodable in text format only
+					if oid != 21 && oid != 23 && oid != 20 {
+						cell["c"] = "v" // (only meaningful for integer columns: an ordinary value otherwise)
+						val, canon := ti.Gen(c.Rng)
+						for canon == "" {
+							val, canon = ti.Gen(c.Rng)
+						}
+						cell["_val"], cell["val"] = val, pgw.Dig([]byte(canon))
+						continue
+					}
+					_, canon := ti.Gen(c.Rng)
+					cell["_val"] = canon
+					cell["val"] = pgw.Dig([]byte(canon))
 				case "empty":
 					cell["val"] = pgw.Dig(nil)
 					cell["_val"] = ""
@@ -188,7 +203,13 @@ func (c *Concretiser) bytes0(m M) []byte {
 			p := AsM(kv)
 			kvs = append(kvs, [2]string{S(p, "k"), S(p, "v")})
 		}
-		return pgw.Startup(pgw.Version30, kvs, B(m, "term"))
+		b := pgw.Startup(pgw.Version30, kvs, B(m, "term"))
+		if tail := S(m, "tail"); tail != "" {
+			// surplus bytes behind the terminator of the parameter list, inside the packet: never read
+			// as parameters, and never as part of a later message
+			b = pgw.Untyped(append(append([]byte{}, b[4:]...), append([]byte(tail), 0)...))
+		}
+		return b
 	case "SSLRequest":
 		if B(m, "stuffed") {
 			// plaintext pushed in the same segment, ahead of the TLS handshake
@@ -204,7 +225,7 @@ func (c *Concretiser) bytes0(m M) []byte {
 		return pgw.Cancel(c.Rng.Uint32(), c.Rng.Uint32())
 	case "p":
 		if _, has := m["pwd"]; !has {
-			m["pwd"] = S(m, "pw") + c.randText(8)
+			m["pwd"] = S(m, "pw") + "-" + c.randText(8) // class, separator, random rest
 		}
 		return pgw.Password(S(m, "pwd"))
 	case "Q":
@@ -404,6 +425,9 @@ func (c *Concretiser) badBytes(m M) []byte {
 		}
 		return pgw.Typed('E', []byte("portal"))
 	case "p":
+		if cls == "short" {
+			return pgw.Typed('p', nil) // a password message without a body
+		}
 		return pgw.Typed('p', []byte("good-without-nul"))
 	case "C":
 		if cls == "short" {
